@@ -2,12 +2,14 @@
 
 Correspondence of pure/Buffered.v with anyio.streams.buffered.BufferedByteReceiveStream and of pure/Text.v with
 anyio.streams.text.TextReceiveStream / TextSendStream / TextStream (over CPython's codecs), plus history monitors that
-do not use the model.  Nothing here suspends: the fake transports always have a chunk or EndOfStream ready, so a call
-is driven to completion by a single coroutine.send(None).
+do not use the model.  Every case runs inside ONE real AnyIO event loop (anyio.run around the whole batch), so awaits of
+AnyIO primitives inside the wrappers work; the fake transports always have a chunk or EndOfStream ready, so on the
+unchanged tree nothing suspends except the cancellation points the harness creates on purpose.
 """
 
 from __future__ import annotations
 
+import asyncio
 import codecs
 import itertools
 import json
@@ -21,16 +23,6 @@ import core
 DRIVERS = [("buffered", "Buffered"), ("text", "Text")]
 
 A, B, D1, D2 = 97, 98, 59, 10          # alphabet of the exhaustive part: a, b, first and second delimiter byte
-
-
-def run_coro(coro):
-    """Drive a coroutine that never really suspends."""
-    try:
-        coro.send(None)
-    except StopIteration as e:
-        return e.value
-    coro.close()
-    raise RuntimeError("coroutine suspended: the fake transports never block")
 
 
 # ----------------------------------------------------------------------------------------------------------------
@@ -49,12 +41,25 @@ def impl():
     from anyio.abc import ByteReceiveStream, ObjectReceiveStream, ObjectSendStream, ObjectStream
     from anyio.streams.buffered import BufferedByteReceiveStream
     from anyio.streams.text import TextReceiveStream, TextSendStream, TextStream
+    from anyio.lowlevel import checkpoint
 
     class MidFeed:
         """While a receive call of the wrapper is parked in our receive(), "another task" calls feed_data(): the data
         queued in `midfeeds` (one entry per fetch) is fed to the owning BufferedByteReceiveStream before we answer."""
 
         owner = None
+        scope = None          # cancel scope around the call that is in progress
+        cancel_at = 0         # number of the fetch (1-based, within the current call) that gets cancelled; 0 = none
+        fetches = 0
+
+        async def cancel_point(self):
+            """The only legitimate waiting point of the wrapper: a fetch.  The k-th fetch of a call under test is
+            cancelled (the scope is cancelled now unless it already was) and the cancellation is delivered here."""
+            self.fetches += 1
+            if self.cancel_at and self.fetches == self.cancel_at:
+                if not self.scope.cancel_called:
+                    self.scope.cancel()
+                await checkpoint()
 
         def wait(self):
             if self.midfeeds:
@@ -73,6 +78,7 @@ def impl():
             self.midfeeds = []
 
         async def receive(self, max_bytes: int = 65536) -> bytes:
+            await self.cancel_point()
             self.wait()
             if max_bytes < 1:
                 self.bad_max.append(max_bytes)
@@ -102,6 +108,7 @@ def impl():
             self.midfeeds = []
 
         async def receive(self) -> bytes:
+            await self.cancel_point()
             self.wait()
             if not self.chunks:
                 raise EndOfStream
@@ -137,20 +144,37 @@ def impl():
     _impl.update(dict(
         anyio=anyio, EndOfStream=EndOfStream, IncompleteRead=IncompleteRead, DelimiterNotFound=DelimiterNotFound,
         FakeByteStream=FakeByteStream, FakeObjectStream=FakeObjectStream, Loopback=Loopback,
-        Buffered=BufferedByteReceiveStream, TextReceiveStream=TextReceiveStream, TextSendStream=TextSendStream,
+        Buffered=BufferedByteReceiveStream, CancelScope=anyio.CancelScope, Cancelled=anyio.get_cancelled_exc_class, TextReceiveStream=TextReceiveStream, TextSendStream=TextSendStream,
         TextStream=TextStream,
     ))
     return _impl
 
 
 # ops of the buffered model: ("r", n) ("x", n) ("u", delim, m) ("u", delim, m, feeds-during-the-call) ("f", data)
+# ("c", k, call): the call runs in a cancel scope; k = 0: the scope is cancelled before the call, k >= 1: its k-th fetch
+# from the wrapped stream is cancelled.  In the flat (model) encoding k is the position where the cancellation was
+# observed: 0 = at entry, nothing touched; j >= 1 = at the j-th fetch (an uncancelled completion in a cancelled scope is 1).
 def buf_flat(kind, chunks, ops):
     out = [kind, len(chunks)]
     for c in chunks:
         out.append(len(c))
         out.extend(c)
     for o in ops:
-        if o[0] == "r":
+        if o[0] == "c":
+            pos, b = o[1], o[2]
+            if b[0] == "r":
+                out += [5, pos, b[1]]
+            elif b[0] == "x":
+                out += [6, pos, b[1]]
+            else:
+                out += [7, pos, b[2], len(b[1])]
+                out.extend(b[1])
+                fs = b[3] if len(b) > 3 else []
+                out.append(len(fs))
+                for f in fs:
+                    out.append(len(f))
+                    out.extend(f)
+        elif o[0] == "r":
             out += [0, o[1]]
         elif o[0] == "x":
             out += [1, o[1]]
@@ -174,17 +198,22 @@ def buf_flat(kind, chunks, ops):
 class BufRun:
     """One case: runs the ops on the real BufferedByteReceiveStream, records observations (codec format), monitors."""
 
-    __slots__ = ("kind", "chunks", "ops", "outs", "mon", "flags")
+    __slots__ = ("kind", "chunks", "ops", "outs", "mon", "flags", "resolved")
 
     def __init__(self, kind, chunks, ops):
         self.kind, self.chunks, self.ops = kind, chunks, ops
         self.outs = []
         self.mon = []
         self.flags = set()
-        self.execute()
+        self.resolved = []               # the ops as the model is given them (cancellation positions resolved)
 
-    def execute(self):
+    async def run(self):
+        await self.execute()
+        return self
+
+    async def execute(self):
         I = impl()
+        CancelScope, Cancelled = I["CancelScope"], I["Cancelled"]()
         EndOfStream, IncompleteRead, DelimiterNotFound = I["EndOfStream"], I["IncompleteRead"], I["DelimiterNotFound"]
         events = []                      # ("p", piece handed out by the wrapped stream) / ("f", fed during a wait)
         wrapped = (I["FakeObjectStream"] if self.kind else I["FakeByteStream"])(self.chunks, events)
@@ -197,27 +226,53 @@ class BufRun:
         arrived = b""                    # fed + received bytes, in order of arrival
         whole = b"".join(bytes(c) for c in self.chunks)
         for idx, o in enumerate(self.ops):
+            cancel_k = None
+            if o[0] == "c":
+                cancel_k, o = o[1], tuple(o[2])
             buf0 = s.buffer
             np0 = len(events)
             rest0 = b"".join(wrapped.chunks)
             logical0 = buf0 + rest0
             t = o[0]
             code, val = 0, b""
+            unused_feeds = 0
+            was_cancelled = False
+            wrapped.fetches = 0
             try:
-                if t == "r":
-                    val = run_coro(s.receive(o[1]))
-                elif t == "x":
-                    val = run_coro(s.receive_exactly(o[1]))
-                elif t == "u":
-                    wrapped.midfeeds = [bytes(f) for f in o[3]] if len(o) > 3 else []
+                if t == "f":
+                    s.feed_data(bytes(o[1]))
+                    code = 5
+                else:
+                    if t == "r":
+                        call = s.receive(o[1])
+                    elif t == "x":
+                        call = s.receive_exactly(o[1])
+                    else:
+                        wrapped.midfeeds = [bytes(f) for f in o[3]] if len(o) > 3 else []
+                        call = s.receive_until(bytes(o[1]), o[2])
                     try:
-                        val = run_coro(s.receive_until(bytes(o[1]), o[2]))
+                        if cancel_k is None:
+                            val = await call
+                        else:
+                            scope = CancelScope()
+                            wrapped.scope, wrapped.cancel_at = scope, max(cancel_k, 1)
+                            try:
+                                with scope:
+                                    if cancel_k == 0:
+                                        scope.cancel()
+                                    try:
+                                        val = await call
+                                    except Cancelled:
+                                        was_cancelled = True
+                                        raise
+                            finally:
+                                wrapped.scope, wrapped.cancel_at = None, 0
+                                await asyncio.sleep(0)      # let the loop drop the scope's cancelled call-backs
+                            if was_cancelled:
+                                code, val = 6, b""
                     finally:
                         unused_feeds = len(wrapped.midfeeds)
                         wrapped.midfeeds = []
-                else:
-                    s.feed_data(bytes(o[1]))
-                    code = 5
             except EndOfStream:
                 code = 1
             except IncompleteRead:
@@ -226,9 +281,23 @@ class BufRun:
                 code = 3
             except ValueError:
                 code = 4
+            except Cancelled:
+                code = 6
+                mon.append(f"op {idx} {o}: cancellation exception outside a cancelled scope")
             except Exception as e:  # noqa: BLE001 - any other class is reported
                 code = 8
                 mon.append(f"op {idx} {o}: unexpected {type(e).__name__}: {e}")
+            if cancel_k is None:
+                self.resolved.append(o)
+            else:
+                # where the cancellation was observed: at entry (no fetch attempted) or at the fetch that raised it
+                pos = cancel_k if cancel_k >= 1 else (wrapped.fetches if code == 6 else 1)
+                self.resolved.append(("c", pos, o))
+                flags.add("cancelled_call" if code == 6 else "call_in_cancelled_scope_completed")
+                if code == 6 and events[np0:] and any(k == "p" and b for k, b in events[np0:]):
+                    flags.add("cancelled_after_fetching_data")
+                if code == 6 and cancel_k == 0 and buf0:
+                    flags.add("cancelled_at_entry_with_buffered_data")
             if not isinstance(val, bytes):
                 mon.append(f"op {idx} {o}: result is {type(val).__name__}, not bytes")
                 val = bytes(val)
@@ -257,20 +326,24 @@ class BufRun:
             delim = bytes(o[1]) if t == "u" else b""
             if code == 0:
                 consumed += val + delim
-            # M1 conservation / prefix property: handed out + delimiters, then the buffer, is exactly what arrived
-            if consumed + buf1 != arrived:
-                mon.append(f"op {idx} {o}: conservation broken: handed out+delimiters {consumed!r} + buffer {buf1!r} "
-                           f"!= fed+received {arrived!r}")
             rest1 = b"".join(wrapped.chunks)
             logical1 = buf1 + rest1
             if t != "f" and code == 0 and not midfed and logical0 != val + delim + logical1:
                 mon.append(f"op {idx} {o}: stream {logical0!r} != result {val!r} + delimiter {delim!r} + rest {logical1!r}")
             # M5 a failing call consumes nothing: what arrived meanwhile is in the buffer, in order, behind what was there
-            if code in (1, 2, 3, 4, 8):
+            if code in (1, 2, 3, 4, 6, 8):
                 if buf1 != buf0 + arr_call:
-                    mon.append(f"op {idx} {o}: failing call: buffer {buf0!r} + arrived {arr_call!r} became {buf1!r}")
+                    expected = buf0 + arr_call
+                    lost = expected[: len(expected) - len(buf1)] if buf1 and expected.endswith(buf1) else (expected if not buf1 else b"?")
+                    shown = o if cancel_k is None else ("scope cancelled before the call" if cancel_k == 0 else f"fetch {cancel_k} cancelled", o)
+                    mon.append(f"op {idx} {shown}: {'cancelled' if code == 6 else 'failing'} call: buffer {buf0!r} + arrived "
+                               f"{arr_call!r} became {buf1!r}: bytes {lost!r} are lost")
                 if not midfed and logical1 != logical0:
                     mon.append(f"op {idx} {o}: failing call changed the stream: {logical0!r} -> {logical1!r}")
+            # M1 conservation / prefix property: handed out + delimiters, then the buffer, is exactly what arrived
+            if consumed + buf1 != arrived:
+                mon.append(f"op {idx} {o}: conservation broken: handed out+delimiters {consumed!r} + buffer {buf1!r} "
+                           f"!= fed+received {arrived!r}")
             if t == "r":
                 n = o[1]
                 if n >= 1:
@@ -293,7 +366,7 @@ class BufRun:
                         flags.add("end_of_stream")
                         if self.kind and b"" in pieces:
                             flags.add("empty_items_then_end_of_stream")
-                    else:
+                    elif not (code == 6 and cancel_k is not None):
                         mon.append(f"op {idx}: receive({n}) failed with code {code}")
                 else:
                     if code == 0:
@@ -313,7 +386,7 @@ class BufRun:
                         flags.add("incomplete_read")
                         if got:
                             flags.add("failed_call_keeps_received_bytes_in_buffer")
-                    else:
+                    elif not (code == 6 and cancel_k is not None):
                         mon.append(f"op {idx}: receive_exactly({n}) failed with code {code}")
                     if code == 0 and len(logical0) < n:
                         mon.append(f"op {idx}: receive_exactly({n}) succeeded with only {len(logical0)} bytes in the stream")
@@ -356,7 +429,7 @@ class BufRun:
                     if rest1:
                         mon.append(f"op {idx}: IncompleteRead with {rest1!r} still in the wrapped stream")
                     flags.add("until_incomplete")
-                else:
+                elif not (code == 6 and cancel_k is not None):
                     mon.append(f"op {idx}: receive_until failed with code {code}")
                 if m <= 0:
                     flags.add("until_non_positive_max_bytes")
@@ -387,15 +460,21 @@ class BufRun:
             mon.append("wrapped stream bookkeeping broken")
 
     def flat(self):
-        return buf_flat(self.kind, self.chunks, self.ops)
+        return buf_flat(self.kind, self.chunks, self.resolved)
+
+    @classmethod
+    def enc_op(cls, o):
+        if o[0] == "c":
+            return ["c", o[1], cls.enc_op(o[2])]
+        return list(o[:1]) + [([bytes(f).decode("latin-1") for f in x] if i == 2 and o[0] == "u" else
+                               bytes(x).decode("latin-1")) if isinstance(x, (list, tuple, bytes)) else x
+                              for i, x in enumerate(o[1:])]
 
     def replay(self):
         return {"kind": "buffered", "wrapped": "object stream of bytes" if self.kind else "byte stream",
                 "chunks": [bytes(c).decode("latin-1") for c in self.chunks],
-                "ops": [list(o[:1]) + [([bytes(f).decode("latin-1") for f in x] if i == 2 and o[0] == "u" else
-                                         bytes(x).decode("latin-1")) if isinstance(x, (list, tuple, bytes)) else x
-                                        for i, x in enumerate(o[1:])]
-                        for o in self.ops],
+                "ops": [self.enc_op(o) for o in self.ops],
+                "ops_as_given_to_the_model": [self.enc_op(o) for o in self.resolved],
                 "flat_case": self.flat(), "impl_observations": self.outs}
 
 
@@ -403,13 +482,14 @@ def buf_from_replay(c):
     """Rebuild a buffered case from a replay / corpus file (strings are latin-1)."""
     kind = 1 if str(c["wrapped"]).startswith("object") or c["wrapped"] == 1 else 0
     chunks = [list(x.encode("latin-1")) if isinstance(x, str) else list(x) for x in c["chunks"]]
-    ops = []
-    for o in c["ops"]:
-        o = [list(x.encode("latin-1")) if isinstance(x, str) and i > 0 else
-             ([list(f.encode("latin-1")) if isinstance(f, str) else list(f) for f in x] if isinstance(x, list) and i == 3 else x)
-             for i, x in enumerate(o)]
-        ops.append(tuple(o))
-    return BufRun(kind, chunks, ops)
+    def dec(o):
+        if o[0] == "c":
+            return ("c", o[1], dec(o[2]))
+        return tuple(list(x.encode("latin-1")) if isinstance(x, str) and i > 0 else
+                     ([list(f.encode("latin-1")) if isinstance(f, str) else list(f) for f in x] if isinstance(x, list) and i == 3 else x)
+                     for i, x in enumerate(o))
+
+    return BufRun(kind, chunks, [dec(o) for o in c["ops"]])
 
 
 def text_from_replay(c):
@@ -422,7 +502,8 @@ def replay(path):
     c = json.loads(open(path).read())
     if c.get("kind") == "tie":
         c = (c.get("case") or {}).get("case") or {}
-    run = buf_from_replay(c) if c.get("kind") == "buffered" else text_from_replay(c)
+    impl()
+    run = _impl["anyio"].run((buf_from_replay(c) if c.get("kind") == "buffered" else text_from_replay(c)).run)
     print("observations:", run.outs)
     for m in run.mon:
         print("MONITOR:", m)
@@ -500,6 +581,24 @@ def buf_midfeed_exhaustive(maxlen):
                             yield kind, ch, [f] if g is None else [f, g]
 
 
+def buf_cancel_exhaustive(maxlen):
+    """calls in a cancel scope: cancelled before the call (k=0), at their first or second fetch; with or without data
+    already buffered; alone or followed by a call that shows what is left"""
+    befores = [None, ("f", [A, D1]), ("r", 1)]
+    calls = [("r", 1), ("r", 3), ("x", 2), ("x", 3), ("u", [D1], 3), ("u", [D1, D2], 9), ("u", [D1], 9, [[A], [D1]])]
+    afters = [None, ("r", 9), ("x", 1)]
+    for ln in range(0, maxlen + 1):
+        for data in itertools.product((A, B, D1, D2), repeat=ln):
+            for ch in chunkings(list(data)):
+                for kind in (0, 1):
+                    for ch2 in (with_empty_items(ch) if kind and ln <= 1 else [ch]):
+                        for b in befores:
+                            for c in calls:
+                                for k in (0, 1, 2):
+                                    for a in afters:
+                                        yield kind, ch2, [o for o in (b, ("c", k, c), a) if o is not None]
+
+
 def buf_random(rng, n):
     for _ in range(n):
         kind = rng.randrange(2)
@@ -537,6 +636,8 @@ def buf_random(rng, n):
                     ops.append(("u", d, m))
             else:
                 ops.append(("f", [rng.choice(alphabet) for _ in range(rng.choice([0, 1, 2, 4]))]))
+            if ops[-1][0] != "f" and rng.random() < 0.15:
+                ops[-1] = ("c", rng.choice([0, 0, 1, 2, 3]), ops[-1])
         yield kind, chunks, ops
 
 
@@ -569,9 +670,12 @@ class TextRun:
         self.expect, self.sent_before, self.use_textstream = expect, sent_before, use_textstream
         self.outs, self.mon, self.flags, self.known = [], [], set(), []
         self.sent_bytes = []
-        self.execute()
 
-    def execute(self):
+    async def run(self):
+        await self.execute()
+        return self
+
+    async def execute(self):
         I = impl()
         EndOfStream = I["EndOfStream"]
         name = ENCODINGS[self.enc]
@@ -591,7 +695,7 @@ class TextRun:
             if o[0] == "r":
                 before = len(wire.chunks)
                 try:
-                    v = run_coro(rs.receive())
+                    v = await rs.receive()
                     if not isinstance(v, str):
                         mon.append(f"op {idx}: receive() returned {type(v).__name__}")
                         v = str(v)
@@ -629,7 +733,7 @@ class TextRun:
                 text = to_str(o[1])
                 n0 = len(wire.sent)
                 try:
-                    run_coro(ss.send(text))
+                    await ss.send(text)
                     if len(wire.sent) != n0 + 1:
                         mon.append(f"op {idx}: send() made {len(wire.sent) - n0} transport sends")
                         b = b"".join(wire.sent[n0:])
@@ -736,7 +840,11 @@ def text_plan(tier):
     return [(CPS, 2, 256), (CPS[:6], 3, 64)]
 
 
-def text_cases(rng, tier):
+async def _trun(*a, **kw):
+    return await TextRun(*a, **kw).run()
+
+
+async def text_cases(rng, tier):
     """Generator of TextRun objects; returns through `stats` the exhaustive bounds."""
     quick = tier == "quick"
     # (1) round trip: real TextSendStream, then every re-chunking of the produced bytes into the real TextReceiveStream
@@ -749,55 +857,55 @@ def text_cases(rng, tier):
                     # one send per string of the split (1 or 2 sends)
                     for cut in ([ln] if ln < 2 else [ln, 1]):
                         strings = [list(cps[:cut])] + ([list(cps[cut:])] if cut < ln else [])
-                        s = TextRun(enc, [], [("s", x) for x in strings] + drain_ops(len(strings)),
+                        s = await _trun(enc, [], [("s", x) for x in strings] + drain_ops(len(strings)),
                                     use_textstream=(ln + enc) % 2 == 0)
                         yield s
                         if "encode_error" in s.flags:
                             continue
                         data = b"".join(s.sent_bytes)
                         for ch in split_variants(rng, list(data), limit):
-                            yield TextRun(enc, ch, drain_ops(len(ch)), expect=[to_str(x) for x in strings],
+                            yield await _trun(enc, ch, drain_ops(len(ch)), expect=[to_str(x) for x in strings],
                                           sent_before=len(strings))
     # (2) encode errors: lone surrogates, out-of-range for latin-1
     for enc in range(len(ENCODINGS)):
         for cps in ([0xD800], [0x41, 0xDFFF], [0x100], [0x41, 0x20AC, 0x42], [0xDBFF, 0xDC00]):
-            yield TextRun(enc, [], [("s", cps), ("s", [0x41]), ("r",), ("r",)])
+            yield await _trun(enc, [], [("s", cps), ("s", [0x41]), ("r",), ("r",)])
     # (3) invalid / arbitrary byte sequences, exhaustive over a representative byte alphabet
     n8 = 3 if quick else 4
     for ln in range(1, n8 + 1):
         for data in itertools.product(U8_BYTES, repeat=ln):
-            yield TextRun(0, [list(data)], drain_ops(1))
+            yield await _trun(0, [list(data)], drain_ops(1))
             if ln > 1:
-                yield TextRun(0, [[b] for b in data], drain_ops(ln))
+                yield await _trun(0, [[b] for b in data], drain_ops(ln))
                 if ln == 3:
-                    yield TextRun(0, [list(data[:1]), list(data[1:])], drain_ops(2))
-                    yield TextRun(0, [list(data[:2]), list(data[2:])], drain_ops(2))
+                    yield await _trun(0, [list(data[:1]), list(data[1:])], drain_ops(2))
+                    yield await _trun(0, [list(data[:2]), list(data[2:])], drain_ops(2))
     for enc in (2, 3, 4):
         for ln in range(1, 5 + (0 if quick or enc != 2 else 1)):
             for data in itertools.product(U16_BYTES, repeat=ln):
                 if quick and ln == 4 and (enc != 2 or data[0] not in (0x00, 0xD8, 0xDC, 0x41, 0xFF, 0xFE)):
                     continue
-                yield TextRun(enc, [list(data)], drain_ops(1))
+                yield await _trun(enc, [list(data)], drain_ops(1))
                 if ln > 1:
-                    yield TextRun(enc, [[b] for b in data], drain_ops(ln))
+                    yield await _trun(enc, [[b] for b in data], drain_ops(ln))
                     if ln < 5:
                         k = 1 + (sum(data) % (ln - 1))
-                        yield TextRun(enc, [list(data[:k]), list(data[k:])], drain_ops(2))
+                        yield await _trun(enc, [list(data[:k]), list(data[k:])], drain_ops(2))
     u32 = [0x00, 0x41, 0x10, 0x11, 0xD8, 0xFE, 0xFF]
     for enc in (5, 6, 7):
         for ln in (4,) if quick else (1, 2, 3, 4):
             for data in itertools.product(u32, repeat=ln):
-                yield TextRun(enc, [list(data)], drain_ops(1))
+                yield await _trun(enc, [list(data)], drain_ops(1))
                 if ln == 4:
-                    yield TextRun(enc, [list(data[:3]), list(data[3:])], drain_ops(2))
+                    yield await _trun(enc, [list(data[:3]), list(data[3:])], drain_ops(2))
         boms = {5: [[0xFF, 0xFE, 0, 0], [0, 0, 0xFE, 0xFF], []], 6: [[]], 7: [[]]}[enc]
         for bom in boms:
             for data in itertools.product(u32, repeat=4):
                 if quick and (data[0] + data[3]) % 3:
                     continue
                 full = bom + list(data)
-                yield TextRun(enc, [full], drain_ops(1))
-                yield TextRun(enc, [[b] for b in full], drain_ops(len(full)))
+                yield await _trun(enc, [full], drain_ops(1))
+                yield await _trun(enc, [[b] for b in full], drain_ops(len(full)))
     # (4) random: longer code point mixes, random splits, interleaved send/receive on the loop-back, garbage bytes
     nrand = 1500 if quick else 20000
     for i in range(nrand):
@@ -812,7 +920,7 @@ def text_cases(rng, tier):
                 else:
                     ops.append(("r",))
             ops += [("r",)] * (len(ops) + 1)
-            yield TextRun(enc, [], ops, use_textstream=bool(i & 1))
+            yield await _trun(enc, [], ops, use_textstream=bool(i & 1))
         elif r < 0.8:
             pool = [c for c in CPS if enc != 1 or c < 256]
             text = to_str([rng.choice(pool) for _ in range(rng.choice([3, 6, 12, 30]))])
@@ -825,19 +933,20 @@ def text_cases(rng, tier):
             ch = split_variants(rng, data, 3)[-1] if data else []
             if rng.random() < 0.2:
                 ch.insert(rng.randrange(len(ch) + 1), [])
-            yield TextRun(enc, ch, drain_ops(len(ch)))
+            yield await _trun(enc, ch, drain_ops(len(ch)))
         else:
             balph = U8_BYTES if enc < 2 else U16_BYTES
             data = [rng.choice(balph) for _ in range(rng.choice([2, 5, 8, 12]))]
             ch = split_variants(rng, data, 3)[-1]
-            yield TextRun(enc, ch, drain_ops(len(ch)) + [("r",)])
+            yield await _trun(enc, ch, drain_ops(len(ch)) + [("r",)])
 
 
 # ----------------------------------------------------------------------------------------------------------------
 # check
 # ----------------------------------------------------------------------------------------------------------------
 
-BUF_NEED = ["feed_data_during_receive_until", "delimiter_inside_data_fed_during_the_wait", "empty_items_skipped_by_receive",
+BUF_NEED = ["cancelled_call", "call_in_cancelled_scope_completed", "cancelled_after_fetching_data",
+            "cancelled_at_entry_with_buffered_data", "feed_data_during_receive_until", "delimiter_inside_data_fed_during_the_wait", "empty_items_skipped_by_receive",
             "empty_items_then_end_of_stream", "exactly_negative_count", "receive_non_positive_max_bytes",
             "until_non_positive_max_bytes", "delimiter_straddles_buffer_and_new_chunk", "object_surplus_kept", "byte_stream_split_by_max_bytes",
             "incomplete_read", "delimiter_not_found", "until_incomplete", "end_of_stream", "feed_behind_buffered_data",
@@ -905,21 +1014,21 @@ class Side:
         self.batch = []
 
 
-def shrink_buf(run):
+async def shrink_buf(run):
     """Drop ops / chunks while some monitor still trips."""
     best = run
     changed = True
     while changed:
         changed = False
         for i in range(len(best.ops)):
-            cand = BufRun(best.kind, best.chunks, best.ops[:i] + best.ops[i + 1:])
+            cand = await BufRun(best.kind, best.chunks, best.ops[:i] + best.ops[i + 1:]).run()
             if cand.mon:
                 best, changed = cand, True
                 break
         if changed:
             continue
         for i in range(len(best.chunks)):
-            cand = BufRun(best.kind, best.chunks[:i] + best.chunks[i + 1:], best.ops)
+            cand = await BufRun(best.kind, best.chunks[:i] + best.chunks[i + 1:], best.ops).run()
             if cand.mon:
                 best, changed = cand, True
                 break
@@ -950,56 +1059,73 @@ def check(tier: str) -> int:
     rng = random.Random(core.seed())
     quick = tier == "quick"
 
-    # ------------------------------------------------ buffered ------------------------------------------------
-    sb = Side("buffered", exe_b, rng, 0.0004 if quick else 0.00005)
-    corpus_dir = core.VERIF / "corpus" / "C16"
-    n_corpus = 0
-    for f in sorted(corpus_dir.glob("*.json")) if corpus_dir.exists() else []:
-        c = json.loads(f.read_text())
-        if c.get("kind") == "buffered":
-            sb.add(buf_from_replay(c))
-            n_corpus += 1
-    bounds = []
-    # (max stream length, max n, max op-sequence length, empty items for streams up to, extra invalid-argument ops)
-    plan = [(3, 2, 2, 2, False)] if quick else [(4, 3, 2, 3, False), (2, 2, 3, 2, True)]
-    t_ex0 = time.time()
-    n_ex = 0
-    for (maxlen, maxn, seqlen, emp, extra) in plan:
-        for kind, ch, ops in buf_exhaustive(maxlen, maxn, seqlen, emp, extra):
-            sb.add(BufRun(kind, ch, ops))
+    async def run_cases():
+        # ------------------------------------------------ buffered ------------------------------------------------
+        sb = Side("buffered", exe_b, rng, 0.0004 if quick else 0.00005)
+        corpus_dir = core.VERIF / "corpus" / "C16"
+        n_corpus = 0
+        for f in sorted(corpus_dir.glob("*.json")) if corpus_dir.exists() else []:
+            c = json.loads(f.read_text())
+            if c.get("kind") == "buffered":
+                sb.add(await buf_from_replay(c).run())
+                n_corpus += 1
+        bounds = []
+        # (max stream length, max n, max op-sequence length, empty items for streams up to, extra invalid-argument ops)
+        plan = [(3, 2, 2, 2, False)] if quick else [(4, 3, 2, 3, False), (2, 2, 3, 2, True)]
+        t_ex0 = time.time()
+        n_ex = 0
+        for (maxlen, maxn, seqlen, emp, extra) in plan:
+            for kind, ch, ops in buf_exhaustive(maxlen, maxn, seqlen, emp, extra):
+                sb.add(await BufRun(kind, ch, ops).run())
+                n_ex += 1
+            bounds.append({"alphabet": "a b ; \\n", "stream_length_upto": maxlen, "chunkings": "all",
+                           "empty_items": f"object stream: one empty item at every position, streams up to {emp} bytes",
+                           "wrapped": ["byte stream", "object stream"],
+                           "op_vocabulary": f"receive 1..{maxn}, receive_exactly -1..{maxn}, receive_until(';' | ';\\n', 1..{maxn + 1}), feed_data(a | ; | \\nb)"
+                                            + (", receive(0), receive_until(max_bytes 0 | -1), receive_exactly(-2)" if extra else ""),
+                           "op_sequences": f"all of length 1..{seqlen}"})
+        mid_len = 2 if quick else 3
+        for kind, ch, ops in buf_midfeed_exhaustive(mid_len):
+            sb.add(await BufRun(kind, ch, ops).run())
             n_ex += 1
-        bounds.append({"alphabet": "a b ; \\n", "stream_length_upto": maxlen, "chunkings": "all",
-                       "empty_items": f"object stream: one empty item at every position, streams up to {emp} bytes",
+        bounds.append({"family": "feed_data during the waits of receive_until", "stream_length_upto": mid_len,
+                       "chunkings": "all", "wrapped": ["byte stream", "object stream"],
+                       "delimiters": "; and ;\\n", "max_bytes": "3, 9",
+                       "feeds": "every list of 1 or 2 feeds over '' a ; \\n a;b ;\\n (one per fetch)",
+                       "then": "nothing | receive(3) | receive_until(';', 9) | receive_exactly(1)"})
+        can_len = 2 if quick else 3
+        for kind, ch, ops in buf_cancel_exhaustive(can_len):
+            sb.add(await BufRun(kind, ch, ops).run())
+            n_ex += 1
+        bounds.append({"family": "cancellation", "stream_length_upto": can_len, "chunkings": "all",
                        "wrapped": ["byte stream", "object stream"],
-                       "op_vocabulary": f"receive 1..{maxn}, receive_exactly -1..{maxn}, receive_until(';' | ';\\n', 1..{maxn + 1}), feed_data(a | ; | \\nb)"
-                                        + (", receive(0), receive_until(max_bytes 0 | -1), receive_exactly(-2)" if extra else ""),
-                       "op_sequences": f"all of length 1..{seqlen}"})
-    mid_len = 2 if quick else 3
-    for kind, ch, ops in buf_midfeed_exhaustive(mid_len):
-        sb.add(BufRun(kind, ch, ops))
-        n_ex += 1
-    bounds.append({"family": "feed_data during the waits of receive_until", "stream_length_upto": mid_len,
-                   "chunkings": "all", "wrapped": ["byte stream", "object stream"],
-                   "delimiters": "; and ;\\n", "max_bytes": "3, 9",
-                   "feeds": "every list of 1 or 2 feeds over '' a ; \\n a;b ;\\n (one per fetch)",
-                   "then": "nothing | receive(3) | receive_until(';', 9) | receive_exactly(1)"})
-    t_ex = time.time() - t_ex0
-    n_rand = 6000 if quick else 150000
-    for kind, ch, ops in buf_random(rng, n_rand):
-        sb.add(BufRun(kind, ch, ops))
-    sb.add(BufRun(*buf_big_case()))
-    sb.flush()
+                       "before": "nothing | feed_data(a;) | receive(1)",
+                       "cancelled_call": "receive 1|3, receive_exactly 2|3, receive_until(';',3), receive_until(';\\n',9), "
+                                         "receive_until(';',9) with feeds a and ; during its waits",
+                       "cancellation": "scope cancelled before the call | at the 1st fetch | at the 2nd fetch",
+                       "then": "nothing | receive(9) | receive_exactly(1)"})
+        t_ex = time.time() - t_ex0
+        n_rand = 6000 if quick else 150000
+        for kind, ch, ops in buf_random(rng, n_rand):
+            sb.add(await BufRun(kind, ch, ops).run())
+        sb.add(await BufRun(*buf_big_case()).run())
+        sb.flush()
 
-    # -------------------------------------------------- text --------------------------------------------------
-    st = Side("text", exe_t, rng, 0.002 if quick else 0.0002)
-    for f in sorted(corpus_dir.glob("*.json")) if corpus_dir.exists() else []:
-        c = json.loads(f.read_text())
-        if c.get("kind") == "text":
-            st.add(text_from_replay(c))
-            n_corpus += 1
-    for run in text_cases(rng, tier):
-        st.add(run)
-    st.flush()
+        # -------------------------------------------------- text --------------------------------------------------
+        st = Side("text", exe_t, rng, 0.002 if quick else 0.0002)
+        for f in sorted(corpus_dir.glob("*.json")) if corpus_dir.exists() else []:
+            c = json.loads(f.read_text())
+            if c.get("kind") == "text":
+                st.add(await text_from_replay(c).run())
+                n_corpus += 1
+        async for run in text_cases(rng, tier):
+            st.add(run)
+        st.flush()
+
+        return sb, st, bounds, n_ex, t_ex, n_rand, n_corpus
+
+    impl()
+    sb, st, bounds, n_ex, t_ex, n_rand, n_corpus = _impl["anyio"].run(run_cases)
 
     proof_thread.join()
     proofs_ok = bool(proof_result.get("ok"))
@@ -1028,7 +1154,7 @@ def check(tier: str) -> int:
                 continue
             shown += 1
             if side is sb and len(r.flat()) < 300:
-                r = shrink_buf(r)
+                r = _impl["anyio"].run(shrink_buf, r)
             rep.violation(r.mon[0], dict(r.replay(), monitor_messages=r.mon[:5]))
         for k in side.known:
             rep.known_finding(k)
